@@ -432,10 +432,10 @@ fn long_ops(rng: &mut Rng, fam: &str, emit: Emit) {
             let wl = len - rng.below(100);
             let w = long_vec(rng, &ty, wl);
             match fam {
-                "C01" => { for op in ["add", "sub"] { emit(line(op, &[&v, &w, "ar"])); } if len <= 9000 { emit(line("mul", &[&v, &w, "ar"])); } }
+                "C01" => { for op in ["add", "sub"] { emit(line(op, &[&v, &w, "ar"])); } if len <= 4100 { emit(line("mul", &[&v, &w, "ar"])); } }
                 "C04" => { for op in ["and", "or", "xor"] { emit(line(op, &[&v, &w, "ar"])); } emit(line("not", &[&v, "v"])); emit(line("not", &[&v, "r"])); }
                 "C05" => { for k in [1usize, 63, 64, 65, len / 2, len - 1] { for f in ["rv", "av"] { emit(line("shl", &[&v, &format!("u32:{:x}", k), f])); emit(line("shr", &[&v, &format!("u32:{:x}", k), f])); } } }
-                "C02" => { if len <= 2100 { let dv = long_vec(rng, &ty, len / 3);
+                "C02" => { if len <= 1030 { let dv = long_vec(rng, &ty, len / 3);
                     emit(line("div", &[&v, &dv, "rr"])); emit(line("rem", &[&v, "u64:de0b6b3a7640000", "rr"])); } }
                 _ => {}
             }
